@@ -356,3 +356,240 @@ Proof.
       rewrite window_mbit; [f_equal; subst t; lia|assumption|lia|lia|lia|].
       subst t. lia.
 Qed.
+
+(** * PathOf *)
+
+Lemma val_msb_app a b : val_msb (a ++ b) = val_msb a * 2 ^ Z.of_nat (length b) + val_msb b.
+Proof.
+  induction a as [|x a IH]; [cbn [app]; rewrite val_msb_nil; lia|].
+  cbn [app]. rewrite !val_msb_cons, IH, app_length, Nat2Z.inj_add, Z.pow_add_r by lia. lia.
+Qed.
+
+Lemma val_msb_zeros r : val_msb (repeat false r) = 0.
+Proof. induction r as [|r IH]; [reflexivity|]. cbn [repeat]. rewrite val_msb_cons, IH. cbn [Z.b2z]. lia. Qed.
+
+(** the value returned by FromStr32 is the selected prefix, left-aligned in w bits *)
+Lemma spec_value_valL s from w : 0 <= from -> 0 <= w ->
+  val_msb (spec_bits s from w) = valL (Z.to_nat w) (sel_bits s from (spec_k s from w)).
+Proof.
+  intros Hf Hw. unfold spec_bits, valL. rewrite val_msb_app, val_msb_zeros, repeat_length.
+  rewrite sel_bits_length by lia. pose proof (spec_k_range s from w Hw).
+  rewrite !Z2Nat.id by lia. lia.
+Qed.
+
+Lemma NewPathChk_NewPath v k h : 0 <= k <= h -> h <= 64 -> NewPathChk v k h = Some (NewPath v k h).
+Proof.
+  intros Hk Hh. unfold NewPathChk, NewPath. rewrite MaskAt_ok by lia.
+  destruct (Z.ltb_spec (h - k) 0); [lia|reflexivity].
+Qed.
+
+Lemma PathOf_spec s from h :
+  bytes_ok s -> 0 <= from -> 0 <= h <= 32 -> from + h + 7 < 2 ^ 31 -> 8 * zlen s < 2 ^ 31 ->
+  PathOf s from h = Some (spec_PathOf s from h).
+Proof.
+  intros Hs Hf Hh Hov Hlen. unfold PathOf. rewrite i32_id by lia.
+  rewrite FromStr32_spec by assumption. unfold spec_FromStr32. fold (spec_bits s from h).
+  pose proof (spec_k_range s from h (proj1 Hh)) as Hk.
+  rewrite NewPathChk_NewPath by lia. f_equal.
+  rewrite spec_value_valL by lia. unfold spec_PathOf.
+  set (q := sel_bits s from (spec_k s from h)).
+  assert (Hq : length q = Z.to_nat (spec_k s from h)) by (apply sel_bits_length; lia).
+  replace (spec_k s from h) with (Z.of_nat (length q)) by lia.
+  replace h with (Z.of_nat (Z.to_nat h)) at 2 by lia.
+  apply NewPath_enc; lia.
+Qed.
+
+Lemma bit_chars_node_str q : bit_chars q = node_str q.
+Proof. reflexivity. Qed.
+
+Lemma PathStr_spec_PathOf s from h : 0 <= from -> 0 <= h <= 32 ->
+  PathStr (spec_PathOf s from h) = spec_PathStrOf s from h.
+Proof.
+  intros Hf Hh. unfold spec_PathOf, spec_PathStrOf. rewrite bit_chars_node_str.
+  pose proof (spec_k_range s from h (proj1 Hh)) as Hk.
+  apply PathStr_enc; [lia|]. rewrite sel_bits_length by lia. lia.
+Qed.
+
+(** * PathsOf *)
+
+Definition key_ok (s : list Z) : Prop := bytes_ok s /\ 8 * zlen s < 2 ^ 31.
+
+Lemma PathsOf_loop_spec from h dd :
+  0 <= from -> 0 <= h <= 32 -> from + h + 7 < 2 ^ 31 ->
+  forall keys, Forall key_ok keys -> forall i prev, 0 <= i ->
+  PathsOf_loop keys from h dd i prev =
+  Some (let ps := map (fun s => spec_PathOf s from h) keys in
+        if dd then (if i =? 0 then dedup_adjacent ps else dedup_after prev ps) else ps).
+Proof.
+  intros Hf Hh Hov keys Hkeys. induction Hkeys as [|s t [Hs Hlen] Ht IH]; intros i prev Hi.
+  - cbn [PathsOf_loop map]. cbv zeta. destruct dd; [destruct (i =? 0)|]; reflexivity.
+  - cbn [PathsOf_loop map]. rewrite PathOf_spec by assumption.
+    rewrite IH by lia. cbv zeta. f_equal.
+    set (p := spec_PathOf s from h). set (ps := map (fun s0 => spec_PathOf s0 from h) t).
+    destruct dd; cbn [negb orb]; [|reflexivity].
+    destruct (Z.eqb_spec (i + 1) 0) as [E|_]; [lia|].
+    destruct (Z.eqb_spec i 0) as [E|E]; cbn [orb]; [reflexivity|].
+    cbn [dedup_after]. destruct (p =? prev); reflexivity.
+Qed.
+
+Lemma PathsOf_spec keys from h dd :
+  Forall key_ok keys -> 0 <= from -> 0 <= h <= 32 -> from + h + 7 < 2 ^ 31 ->
+  PathsOf keys from h dd = Some (spec_PathsOf keys from h dd).
+Proof.
+  intros Hkeys Hf Hh Hov. unfold PathsOf. rewrite (PathsOf_loop_spec from h dd) by (assumption || lia).
+  reflexivity.
+Qed.
+
+(** * the statements of Properties/C11.v, in the naive vocabulary only
+      ([msb_bits], [firstn], [skipn], [val_msb], [enc], [clamp]) *)
+
+Lemma FromStr32_naive s from w :
+  bytes_ok s -> 0 <= from -> 0 <= w <= 32 -> from + w + 7 < 2 ^ 31 -> 8 * zlen s < 2 ^ 31 ->
+  let k := clamp (8 * zlen s - from) 0 w in
+  FromStr32 s from (from + w) =
+  Some (k, val_msb (firstn (Z.to_nat k) (skipn (Z.to_nat from) (msb_bits s)) ++ repeat false (Z.to_nat (w - k)))).
+Proof.
+  intros Hs Hf Hw Hov Hlen k. rewrite FromStr32_spec by assumption.
+  unfold spec_FromStr32. rewrite sel_bits_naive. reflexivity.
+Qed.
+
+(** the same, bit by bit: the value has w bits; its bit w-1-m (m-th from the top) is
+    bit from+m of the string for m < k and 0 for k <= m < w *)
+Lemma FromStr32_bits s from w :
+  bytes_ok s -> 0 <= from -> 0 <= w <= 32 -> from + w + 7 < 2 ^ 31 -> 8 * zlen s < 2 ^ 31 ->
+  exists v, FromStr32 s from (from + w) = Some (clamp (8 * zlen s - from) 0 w, v) /\
+    0 <= v < 2 ^ w /\
+    forall m, 0 <= m < w ->
+      Z.testbit v (w - 1 - m) =
+      if m <? clamp (8 * zlen s - from) 0 w then nth (Z.to_nat (from + m)) (msb_bits s) false else false.
+Proof.
+  intros Hs Hf Hw Hov Hlen. exists (val_msb (spec_bits s from w)).
+  split; [now apply FromStr32_spec|]. split; [apply spec_value_bound; lia|].
+  intros m Hm. rewrite spec_value_testbit by lia. replace (w - 1 - (w - 1 - m)) with m by lia.
+  destruct (Z.ltb_spec m (clamp (8 * zlen s - from) 0 w)); [reflexivity|].
+  apply mbit_outside. unfold clamp in *. lia.
+Qed.
+
+Lemma PathOf_naive s from h :
+  bytes_ok s -> 0 <= from -> 0 <= h <= 32 -> from + h + 7 < 2 ^ 31 -> 8 * zlen s < 2 ^ 31 ->
+  let k := clamp (8 * zlen s - from) 0 h in
+  PathOf s from h = Some (enc (Z.to_nat h) (firstn (Z.to_nat k) (skipn (Z.to_nat from) (msb_bits s)))).
+Proof.
+  intros Hs Hf Hh Hov Hlen k. rewrite PathOf_spec by assumption.
+  unfold spec_PathOf. rewrite sel_bits_naive. reflexivity.
+Qed.
+
+Lemma PathOf_str_naive s from h :
+  bytes_ok s -> 0 <= from -> 0 <= h <= 32 -> from + h + 7 < 2 ^ 31 -> 8 * zlen s < 2 ^ 31 ->
+  let k := clamp (8 * zlen s - from) 0 h in
+  exists p, PathOf s from h = Some p /\
+    PathStr p = node_str (firstn (Z.to_nat k) (skipn (Z.to_nat from) (msb_bits s))) /\
+    PathLen p = k.
+Proof.
+  intros Hs Hf Hh Hov Hlen k. exists (spec_PathOf s from h). split; [now apply PathOf_spec|].
+  pose proof (spec_k_range s from h (proj1 Hh)) as Hk.
+  split.
+  - rewrite PathStr_spec_PathOf by lia. unfold spec_PathStrOf. rewrite sel_bits_naive. reflexivity.
+  - unfold spec_PathOf. rewrite PathLen_enc; [|lia|rewrite sel_bits_length by lia; lia].
+    rewrite sel_bits_length by lia. subst k. unfold spec_k in *. lia.
+Qed.
+
+Lemma PathsOf_naive keys from h dedup :
+  Forall (fun s => bytes_ok s /\ 8 * zlen s < 2 ^ 31) keys ->
+  0 <= from -> 0 <= h <= 32 -> from + h + 7 < 2 ^ 31 ->
+  let path_of s := enc (Z.to_nat h)
+      (firstn (Z.to_nat (clamp (8 * zlen s - from) 0 h)) (skipn (Z.to_nat from) (msb_bits s))) in
+  PathsOf keys from h dedup = Some ((if dedup then dedup_adjacent else fun l => l) (map path_of keys)).
+Proof.
+  intros Hkeys Hf Hh Hov path_of. rewrite PathsOf_spec by assumption. unfold spec_PathsOf.
+  assert (E : map (fun s => spec_PathOf s from h) keys = map path_of keys).
+  { apply map_ext. intros s. unfold spec_PathOf, path_of. now rewrite sel_bits_naive. }
+  rewrite E. now destruct dedup.
+Qed.
+
+(** PathsOf maps PathOf over the keys (model functions on both sides) *)
+Lemma PathsOf_map_PathOf keys from h :
+  Forall (fun s => bytes_ok s /\ 8 * zlen s < 2 ^ 31) keys ->
+  0 <= from -> 0 <= h <= 32 -> from + h + 7 < 2 ^ 31 ->
+  exists ps, PathsOf keys from h false = Some ps /\ map Some ps = map (fun s => PathOf s from h) keys /\
+    PathsOf keys from h true = Some (dedup_adjacent ps).
+Proof.
+  intros Hkeys Hf Hh Hov. exists (map (fun s => spec_PathOf s from h) keys).
+  split; [now rewrite PathsOf_spec by assumption|]. split.
+  - rewrite map_map. apply map_ext_in. intros s Hin. rewrite Forall_forall in Hkeys.
+    destruct (Hkeys s Hin). now rewrite PathOf_spec.
+  - now rewrite PathsOf_spec by assumption.
+Qed.
+
+(** * what [dedup_adjacent] is: exactly the elements that differ from their predecessor *)
+
+(** keep l[i] iff i = 0 or l[i] <> l[i-1], written with an explicit predecessor *)
+Fixpoint keep_changed (prev : option Z) (l : list Z) : list Z :=
+  match l with
+  | [] => []
+  | x :: t =>
+    match prev with
+    | Some p => if x =? p then keep_changed (Some x) t else x :: keep_changed (Some x) t
+    | None => x :: keep_changed (Some x) t
+    end
+  end.
+
+Lemma dedup_after_keep prev l : dedup_after prev l = keep_changed (Some prev) l.
+Proof. revert prev. induction l as [|x t IH]; intros prev; [reflexivity|]. cbn [dedup_after keep_changed]. now rewrite IH. Qed.
+
+Lemma dedup_adjacent_keep l : dedup_adjacent l = keep_changed None l.
+Proof. destruct l as [|x t]; [reflexivity|]. cbn [dedup_adjacent keep_changed]. now rewrite dedup_after_keep. Qed.
+
+(** no two neighbours of the result are equal *)
+Fixpoint no_adjacent_eq (l : list Z) : Prop :=
+  match l with
+  | x :: ((y :: _) as t) => x <> y /\ no_adjacent_eq t
+  | _ => True
+  end.
+
+Lemma dedup_after_head prev l : match dedup_after prev l with [] => True | y :: _ => y <> prev end.
+Proof.
+  revert prev. induction l as [|x t IH]; intros prev; [exact I|].
+  cbn [dedup_after]. destruct (Z.eqb_spec x prev) as [->|Hne]; [apply IH|exact Hne].
+Qed.
+
+Lemma dedup_after_no_adjacent prev l : no_adjacent_eq (dedup_after prev l).
+Proof.
+  revert prev. induction l as [|x t IH]; intros prev; [exact I|].
+  cbn [dedup_after]. destruct (x =? prev); [apply IH|].
+  pose proof (dedup_after_head x t) as Hh. pose proof (IH x) as Hn.
+  destruct (dedup_after x t) as [|y r]; [exact I|]. split; [congruence|exact Hn].
+Qed.
+
+Lemma dedup_adjacent_no_adjacent l : no_adjacent_eq (dedup_adjacent l).
+Proof.
+  destruct l as [|x t]; [exact I|]. cbn [dedup_adjacent].
+  pose proof (dedup_after_head x t) as Hh. pose proof (dedup_after_no_adjacent x t) as Hn.
+  destruct (dedup_after x t) as [|y r]; [exact I|]. split; [congruence|exact Hn].
+Qed.
+
+(** nothing is lost but repetitions: a list without equal neighbours is unchanged *)
+Lemma dedup_after_id prev l : no_adjacent_eq (prev :: l) -> dedup_after prev l = l.
+Proof.
+  revert prev. induction l as [|x t IH]; intros prev H; [reflexivity|].
+  cbn [dedup_after]. destruct H as [Hne Ht]. destruct (Z.eqb_spec x prev); [congruence|].
+  f_equal. now apply IH.
+Qed.
+
+Lemma dedup_adjacent_id l : no_adjacent_eq l -> dedup_adjacent l = l.
+Proof. destruct l as [|x t]; [reflexivity|]. intros H. cbn [dedup_adjacent]. f_equal. now apply dedup_after_id. Qed.
+
+(** * the pre-fix PathsOf is refuted *)
+Lemma legacy_PathsOf_refuted :
+  exists keys from h dedup,
+    Forall (fun s => bytes_ok s /\ 8 * zlen s < 2 ^ 31) keys /\ 0 <= from /\ 0 <= h <= 32 /\ from + h + 7 < 2 ^ 31 /\
+    legacy_PathsOf keys from h dedup <> Some (spec_PathsOf keys from h dedup) /\
+    legacy_PathsOf keys from h dedup = Some [] /\
+    spec_PathsOf keys from h dedup = [2 ^ 64 - 1].
+Proof.
+  exists [[255; 255; 255; 255]], 0, 32, true.
+  split.
+  { constructor; [|constructor]. split; [repeat constructor; unfold byte_ok; lia|vm_compute; reflexivity]. }
+  split; [lia|]. split; [lia|]. split; [vm_compute; reflexivity|].
+  split; [vm_compute; discriminate|]. split; vm_compute; reflexivity.
+Qed.
